@@ -12,6 +12,7 @@ from harness.props.c04 import compare_factor
 OBLIGATIONS = [
     "PgmVerif.C06_counts_den", "PgmVerif.C06_counts_perm", "PgmVerif.C06_counts_parent_order",
     "PgmVerif.C06_mle_closed_form", "PgmVerif.C06_bayes_closed_form", "PgmVerif.C06_fitted_valid",
+    "PgmVerif.C06_mle_weight_scale",
 ]
 PARTIAL = ["EM monotonicity of the observed-data likelihood and EM = MLE without latents are decided by the correspondence "
            "(likelihood recomputed exactly by the Lean model after 1..4 iterations), not by a theorem",
@@ -24,7 +25,8 @@ ASSUMPTIONS = ["string-valued columns are passed as pandas category dtype (panda
 BUDGET_QUICK = 90
 LEVEL_TEXT = ("Kernel-checked: the count table denotes, at every assignment, the weighted number of rows agreeing with it (hence is invariant "
               "under row permutation and parent order); the ML estimate is count/column-total with uniform columns for unseen parent "
-              "configurations; the Bayesian estimate is (count+pseudo)/(total) for K2, BDeu and Dirichlet pseudo-counts; every fitted column "
+              "configurations and depends on the row weights only through their ratios (any common non-zero factor cancels); "
+              "the Bayesian estimate is (count+pseudo)/(total) for K2, BDeu and Dirichlet pseudo-counts; every fitted column "
               "sums to one. The implementation (MLE, BayesianEstimator, fit, DAG.fit, fit_update, weighted rows, n_jobs) is tied by "
               "differential correspondence at every named assignment. EM monotonicity / EM=MLE are differential only (partial).")
 LEVEL_NOTE = "Trusted: Lean kernel + standard axioms; model; harness; pandas internals."
